@@ -196,6 +196,7 @@ Proof.
   - apply callback_from_emit.
     + intros s e H. destruct (fail_fields s e) as [T [Pd _]]. eapply deliv_inv_ext; eauto.
     + intros s a kind r hold sw run. apply deliv_inv_emit. exact I.
+  - apply step_from_quiet. apply deliv_inv_emit.
   - intros s e He [H1 H2]. destruct (boundary_no_truth e He) as [Et Ed]. unfold deliv_inv, no_truth, flush, write. cbn.
     rewrite rev_app_distr, !rev_involutive, !truths_app, !delivered_app, !truths_one, !delivered_one. rewrite H1.
     unfold no_truth in H2. rewrite H2, Et, Ed. simpl. rewrite !app_nil_r. auto.
@@ -295,6 +296,8 @@ Proof.
   apply callback_from_emit; [apply HI_fail|].
   intros s a kind r hold sw run H. apply hold_inv_emit_nonfill; auto.
 Qed.
+Lemma HI_step : forall s kind mkid x, find_mkt mkid (s_markets s) = Some x -> P s -> P (emit s (ev_step s kind x)).
+Proof. intros s kind mkid x _ H. apply hold_inv_emit_nonfill; auto. Qed.
 Lemma HI_boundary : forall s e, boundary_event e -> P s -> P (flush (write s e)).
 Proof.
   intros s e He [H H2]. destruct (boundary_no_truth e He) as [Et Ed]. unfold P, hold_inv, no_truth, flush, write in *. cbn.
@@ -370,7 +373,7 @@ Theorem hold_inv_run c tape batches funds :
   hold_inv (s_agents (init_sim c tape batches funds)) (run c tape batches funds).
 Proof.
   set (a0 := s_agents (init_sim c tape batches funds)).
-  apply (run_pres (hold_inv a0) (HI_fail a0) (HI_emit a0) (HI_callback a0) (HI_boundary a0) (HI_accept_order a0) (HI_accept_cancel a0)
+  apply (run_pres (hold_inv a0) (HI_fail a0) (HI_emit a0) (HI_callback a0) (HI_step a0) (HI_boundary a0) (HI_accept_order a0) (HI_accept_cancel a0)
            (HI_round a0) (HI_fills a0) (HI_tick_all a0) (HI_pop_perm a0) (HI_pop_draw a0) (HI_consult a0) (HI_spent a0)
            (HI_halt_after a0) (HI_halt_before a0) (HI_shock a0) (HI_set_cur a0) (HI_begin_iteration a0)).
   unfold hold_inv, no_truth, init_sim. cbn. auto.
@@ -522,6 +525,7 @@ Proof.
   - (* callback *) apply callback_from_emit.
     + intros s e H. destruct (fail_fields s e) as [T [Pd [_ [_ [Se [Ev _]]]]]]. eapply switch_inv_ext; eauto.
     + intros s a kind r hold sw run H. apply switch_inv_emit; auto; intros; discriminate.
+  - (* step record *) intros s kind mkid x _ H. apply switch_inv_emit; auto; intros; discriminate.
   - (* boundary *) intros s e He [N [A [B [C [D T]]]]]. unfold switch_inv, flush, write. cbn. repeat split; auto.
     + intros mk run sid Hin. apply in_app_iff in Hin. destruct Hin as [Hin|Hin]; [|eauto].
       exfalso. apply in_rev in Hin. apply in_app_iff in Hin. destruct Hin as [Hin|[Hin|[]]].
